@@ -1,5 +1,6 @@
 import PyrexVerif.R.Gen
 import PyrexVerif.D.ListGen
+import PyrexVerif.Proofs.GenSlab
 import Mathlib.MeasureTheory.Measure.Lebesgue.Basic
 import Mathlib.Analysis.SpecialFunctions.Trigonometric.Basic
 import Mathlib.Analysis.SpecialFunctions.Sqrt
@@ -303,6 +304,27 @@ theorem C13_box_exit_brackets_vertex (dx dy dz : ℝ) (v d a b : EV3) (hv : inBo
   obtain ⟨⟨ta, hta, ha, _, _⟩, ⟨tb, htb, hb, _, _⟩⟩ := this
   exact ⟨ta, tb, by simpa using hta, by simpa using htb, ha, hb⟩
 
+/-- Totality of the slab method: for a vertex in the (closed) box and a direction with at least one non-zero
+component — axis-parallel directions included — `get_exit_points` always returns a pair (it never raises); with
+the three theorems above the pair is on the boundary, on the line of flight and brackets the vertex. -/
+theorem C13_box_exit_total (dx dy dz : ℝ) (v d : EV3) (hv : inBox dx dy dz v)
+    (hd : d.x ≠ 0 ∨ d.y ≠ 0 ∨ d.z ≠ 0) :
+    ∃ a b, boxExit dx dy dz v d = some (a, b) ∧
+      inBox dx dy dz a ∧ onBoxFace dx dy dz a ∧ inBox dx dy dz b ∧ onBoxFace dx dy dz b ∧
+      ∃ ta tb : ℝ, ta ≤ 0 ∧ 0 ≤ tb ∧ a = lineAt v d ta ∧ b = lineAt v d tb := by
+  have hidx : InBoxIdx dx dy dz v := by
+    obtain ⟨h1, h2, h3, h4, h5, h6⟩ := hv
+    intro j hj
+    interval_cases j <;> simp [comp, boxSide] <;> constructor <;> linarith
+  have hdd : ∃ j, j < 3 ∧ comp d j ≠ 0 := by
+    rcases hd with h | h | h
+    · exact ⟨0, by norm_num, by simpa [comp] using h⟩
+    · exact ⟨1, by norm_num, by simpa [comp] using h⟩
+    · exact ⟨2, by norm_num, by simpa [comp] using h⟩
+  obtain ⟨⟨a, b⟩, hr⟩ := boxExit_total dx dy dz v d hidx hdd
+  obtain ⟨h1, h2, h3, h4⟩ := C13_box_exit_on_boundary dx dy dz v d a b hv hr
+  exact ⟨a, b, hr, h1, h2, h3, h4, C13_box_exit_brackets_vertex dx dy dz v d a b hv hr⟩
+
 /-! ## exit points: cylinder -/
 
 /-- generic direction (`d_x ≠ 0`) with the line meeting the infinite cylinder (`disc ≥ 0`): both side
@@ -398,6 +420,144 @@ theorem C13_cyl_exit_brackets_vertex_partial (dr dz : ℝ) (v d a b : EV3)
   obtain ⟨rfl, rfl⟩ := h
   exact ⟨h1.1 _ rfl, h1.2 _ rfl⟩
 
+private theorem line_comp (vj dj t : ℝ) (h : dj < 0 ∨ 0 < dj) : (vj + dj * t - vj) / dj = t := by
+  have hne : dj ≠ 0 := by rcases h with h | h <;> [exact ne_of_lt h; exact ne_of_gt h]
+  rw [add_sub_cancel_left, mul_div_cancel_left₀ _ hne]
+
+private theorem lineAt_allNeg (v d : EV3) (t : ℝ) (ht : t < 0) : allNeg (lineAt v d t) v d := by
+  unfold allNeg lineAt
+  refine ⟨?_, ?_, ?_⟩ <;> intro h <;> simp only <;> rw [line_comp _ _ _ h] <;> exact ht
+
+private theorem lineAt_allPos (v d : EV3) (t : ℝ) (ht : 0 < t) : allPos (lineAt v d t) v d := by
+  unfold allPos lineAt
+  refine ⟨?_, ?_, ?_⟩ <;> intro h <;> simp only <;> rw [line_comp _ _ _ h] <;> exact ht
+
+private theorem side_offsets (dr : ℝ) (v d : EV3) (hnz : d.x < 0 ∨ 0 < d.x) (m q : ℝ) (hm : m = d.y / d.x)
+    (hq : q = Real.sqrt (-((v.y - m * v.x) * (v.y - m * v.x)) + (1 + m * m) * (dr * dr))) :
+    (cylSidePoints dr v d).1.x - v.x = (-q - (v.x + m * v.y)) / (1 + m * m) ∧
+    (cylSidePoints dr v d).2.x - v.x = (q - (v.x + m * v.y)) / (1 + m * m) := by
+  have ha : (1 + m * m) ≠ 0 := by nlinarith [mul_self_nonneg m]
+  unfold cylSidePoints
+  rw [if_pos hnz]
+  simp only [Rsqrt, ← hm, ← hq]
+  constructor <;> (field_simp; ring)
+
+private theorem lineAt_not_allNeg (v d : EV3) (hdx : d.x ≠ 0) (t : ℝ) (ht : 0 < t) : ¬ allNeg (lineAt v d t) v d := by
+  intro h
+  have := h.1 (lt_or_gt_of_ne hdx)
+  simp only [lineAt] at this
+  rw [add_sub_cancel_left, mul_div_cancel_left₀ _ hdx] at this
+  linarith
+
+/-- the cap override keeps a point of the line on the line, on the same side of the vertex -/
+private theorem cap_on_line (dz : ℝ) (v d : EV3) (hz : -dz < v.z ∧ v.z < 0) (t : ℝ) :
+    ∃ t' : ℝ, capOverride dz v d (lineAt v d t) = lineAt v d t' ∧ (t < 0 → t' < 0) ∧ (0 < t → 0 < t') := by
+  have hdz0 : 0 ≤ dz := by linarith [hz.1, hz.2]
+  by_cases h1 : 0 < (lineAt v d t).z
+  · have hprod : 0 < d.z * t := by simp only [lineAt] at h1; linarith [hz.2]
+    have hdz : d.z ≠ 0 := by rintro h; rw [h, zero_mul] at hprod; exact lt_irrefl _ hprod
+    refine ⟨(0 - v.z) / d.z, ((C13_cyl_cap_override dz v d (lineAt v d t) hdz hdz0).1 h1).1, ?_, ?_⟩
+    · intro ht
+      have : d.z < 0 := by by_contra hcon; push Not at hcon; nlinarith
+      exact div_neg_of_pos_of_neg (by linarith [hz.2]) this
+    · intro ht
+      have : 0 < d.z := by by_contra hcon; push Not at hcon; nlinarith
+      exact div_pos (by linarith [hz.2]) this
+  · by_cases h2 : (lineAt v d t).z < -dz
+    · have hprod : d.z * t < 0 := by simp only [lineAt] at h2; linarith [hz.1]
+      have hdz : d.z ≠ 0 := by rintro h; rw [h, zero_mul] at hprod; exact lt_irrefl _ hprod
+      refine ⟨(-dz - v.z) / d.z, ((C13_cyl_cap_override dz v d (lineAt v d t) hdz hdz0).2.1 h2).1, ?_, ?_⟩
+      · intro ht
+        have : 0 < d.z := by by_contra hcon; push Not at hcon; nlinarith
+        exact div_neg_of_neg_of_pos (by linarith [hz.1]) this
+      · intro ht
+        have : d.z < 0 := by by_contra hcon; push Not at hcon; nlinarith
+        exact div_pos_of_neg_of_neg (by linarith [hz.1]) this
+    · refine ⟨t, ?_, fun h => h, fun h => h⟩
+      simp only [capOverride, if_neg h1, if_neg h2]
+
+/-- Totality of the cylinder exit for generic position: radius `dr > 0`, vertex **strictly inside** the cylinder
+(`x²+y² < dr²`, `−dz < z < 0`), direction with `d_x ≠ 0` (the code's general branch).  Then `get_exit_points`
+returns a pair, both points are on the line of flight, and the vertex lies strictly between them
+(`t_enter < 0 < t_exit`).  (Directions with `d_x = 0` use the other branch of the code and vertices on the
+boundary can make a parameter vanish; those cases are covered by the correspondence run, not by this theorem.) -/
+theorem C13_cyl_exit_total_generic (dr dz : ℝ) (v d : EV3) (hdx : d.x ≠ 0)
+    (hin : v.x ^ 2 + v.y ^ 2 < dr ^ 2) (hz : -dz < v.z ∧ v.z < 0) :
+    ∃ a b, cylExit dr dz v d = some (a, b) ∧
+      ∃ ta tb : ℝ, ta < 0 ∧ 0 < tb ∧ a = lineAt v d ta ∧ b = lineAt v d tb := by
+  have hnz : d.x < 0 ∨ 0 < d.x := lt_or_gt_of_ne hdx
+  set m := d.y / d.x with hm
+  have hkey : (v.x + m * v.y) ^ 2 < -((v.y - m * v.x) * (v.y - m * v.x)) + (1 + m * m) * (dr * dr) := by nlinarith
+  have hdisc : 0 ≤ -((v.y - m * v.x) * (v.y - m * v.x)) + (1 + m * m) * (dr * dr) := by nlinarith [sq_nonneg (v.x + m * v.y)]
+  obtain ⟨_, _, hy0, hy1, hz0, hz1⟩ := C13_cyl_side_roots dr v d hnz hdisc
+  set P := cylSidePoints dr v d with hP
+  -- signs of the horizontal offsets of the two side candidates
+  have ha : 0 < 1 + m * m := by nlinarith [mul_self_nonneg m]
+  set q := Real.sqrt (-((v.y - m * v.x) * (v.y - m * v.x)) + (1 + m * m) * (dr * dr)) with hq
+  have hqq : q * q = -((v.y - m * v.x) * (v.y - m * v.x)) + (1 + m * m) * (dr * dr) := Real.mul_self_sqrt hdisc
+  have hq0 : 0 ≤ q := Real.sqrt_nonneg _
+  have hqabs : |v.x + m * v.y| < q := by
+    rw [abs_lt]
+    constructor
+    · by_contra hcon; push Not at hcon; nlinarith
+    · by_contra hcon; push Not at hcon; nlinarith
+  obtain ⟨hx0, hx1⟩ := side_offsets dr v d hnz m q hm hq
+  have hs0 : P.1.x - v.x < 0 := by
+    rw [hx0]; exact div_neg_of_neg_of_pos (by linarith [(abs_lt.mp hqabs).1]) ha
+  have hs1 : 0 < P.2.x - v.x := by
+    rw [hx1]; exact div_pos (by linarith [(abs_lt.mp hqabs).2]) ha
+  -- both candidates are points of the line
+  have hl0 : P.1 = lineAt v d ((P.1.x - v.x) / d.x) := by
+    have e1 : P.1.x = v.x + d.x * ((P.1.x - v.x) / d.x) := by field_simp; ring
+    have e2 : P.1.y = v.y + d.y * ((P.1.x - v.x) / d.x) := by
+      have : d.y * ((P.1.x - v.x) / d.x) = m * (P.1.x - v.x) := by rw [hm]; field_simp
+      linarith
+    have e3 : P.1.z = v.z + d.z * ((P.1.x - v.x) / d.x) := by
+      have : d.z * ((P.1.x - v.x) / d.x) = (P.1.x - v.x) * d.z / d.x := by field_simp
+      linarith
+    cases hPP : P.1 with
+    | mk x y z => simp only [hPP, lineAt, EV3.mk.injEq] at e1 e2 e3 ⊢; exact ⟨e1, e2, e3⟩
+  have hl1 : P.2 = lineAt v d ((P.2.x - v.x) / d.x) := by
+    have e1 : P.2.x = v.x + d.x * ((P.2.x - v.x) / d.x) := by field_simp; ring
+    have e2 : P.2.y = v.y + d.y * ((P.2.x - v.x) / d.x) := by
+      have : d.y * ((P.2.x - v.x) / d.x) = m * (P.2.x - v.x) := by rw [hm]; field_simp
+      linarith
+    have e3 : P.2.z = v.z + d.z * ((P.2.x - v.x) / d.x) := by
+      have : d.z * ((P.2.x - v.x) / d.x) = (P.2.x - v.x) * d.z / d.x := by field_simp
+      linarith
+    cases hPP : P.2 with
+    | mk x y z => simp only [hPP, lineAt, EV3.mk.injEq] at e1 e2 e3 ⊢; exact ⟨e1, e2, e3⟩
+  obtain ⟨t0, hc0, hn0, hp0⟩ := cap_on_line dz v d hz ((P.1.x - v.x) / d.x)
+  obtain ⟨t1, hc1, hn1, hp1⟩ := cap_on_line dz v d hz ((P.2.x - v.x) / d.x)
+  rw [← hl0] at hc0
+  rw [← hl1] at hc1
+  unfold cylExit
+  rw [← hP, hc0, hc1]
+  rcases hnz with hneg | hpos
+  · -- d.x < 0: the first candidate is ahead of the vertex, the second behind it
+    have ht0 : 0 < t0 := hp0 (div_pos_of_neg_of_neg hs0 hneg)
+    have ht1 : t1 < 0 := hn1 (div_neg_of_pos_of_neg hs1 hneg)
+    refine ⟨lineAt v d t1, lineAt v d t0, ?_, t1, t0, ht1, ht0, rfl, rfl⟩
+    have c0 : classify v d (none, none) (lineAt v d t0) = (none, some (lineAt v d t0)) := by
+      unfold classify
+      rw [if_neg (lineAt_not_allNeg v d hdx t0 ht0), if_pos (lineAt_allPos v d t0 ht0)]
+    rw [c0]
+    have c1 : classify v d (none, some (lineAt v d t0)) (lineAt v d t1) = (some (lineAt v d t1), some (lineAt v d t0)) := by
+      unfold classify
+      rw [if_pos (lineAt_allNeg v d t1 ht1)]
+    rw [c1]; rfl
+  · have ht0 : t0 < 0 := hn0 (div_neg_of_neg_of_pos hs0 hpos)
+    have ht1 : 0 < t1 := hp1 (div_pos hs1 hpos)
+    refine ⟨lineAt v d t0, lineAt v d t1, ?_, t0, t1, ht0, ht1, rfl, rfl⟩
+    have c0 : classify v d (none, none) (lineAt v d t0) = (some (lineAt v d t0), none) := by
+      unfold classify
+      rw [if_pos (lineAt_allNeg v d t0 ht0)]
+    rw [c0]
+    have c1 : classify v d (some (lineAt v d t0), none) (lineAt v d t1) = (some (lineAt v d t0), some (lineAt v d t1)) := by
+      unfold classify
+      rw [if_neg (lineAt_not_allNeg v d hdx t1 ht1), if_pos (lineAt_allPos v d t1 ht1)]
+    rw [c1]; rfl
+
 /-! ## counting -/
 
 /-- `create_event`: the number of passes reported is at least one; without shadowing it is exactly one; with
@@ -464,6 +624,27 @@ theorem C13_shadow_accept (c : GenConfig) (fuel : ℕ) (t t1 t2 : Tape) (p0 : Th
     createEvent c (fuel + 1) t = some (1, { p0 with survival := 1 }, t2) := by
   have hs' : ¬ c.shadow = false := by rw [hs]; simp
   simp only [createEvent, h1, Option.bind_eq_bind, Option.bind_some, if_neg hs', h2, if_pos hu]
+
+/-- shadowing as a probability: the decision draws `u ∈ [0,1)` that accept a throw of survival weight
+`w = exp(−X/L)` form a set of Lebesgue measure `w`, those that reject it a set of measure `1 − w` — events are
+rejected with probability `1 − survival weight` -/
+theorem C13_shadow_accept_prob (X L : ℝ) (hX : 0 ≤ X) (hL : 0 < L) :
+    MeasureTheory.volume {u : ℝ | 0 ≤ u ∧ u < 1 ∧ u < survivalWeight X L} = ENNReal.ofReal (survivalWeight X L) ∧
+    MeasureTheory.volume {u : ℝ | 0 ≤ u ∧ u < 1 ∧ ¬ u < survivalWeight X L} = ENNReal.ofReal (1 - survivalWeight X L) := by
+  obtain ⟨_, hpos, hle⟩ := C13_survival_weight_def X L hX hL
+  constructor
+  · have : {u : ℝ | 0 ≤ u ∧ u < 1 ∧ u < survivalWeight X L} = Set.Ico 0 (survivalWeight X L) := by
+      ext u; simp only [Set.mem_setOf_eq, Set.mem_Ico]
+      constructor
+      · rintro ⟨a, _, c⟩; exact ⟨a, c⟩
+      · rintro ⟨a, c⟩; exact ⟨a, by linarith, c⟩
+    rw [this, Real.volume_Ico]; simp
+  · have : {u : ℝ | 0 ≤ u ∧ u < 1 ∧ ¬ u < survivalWeight X L} = Set.Ico (survivalWeight X L) 1 := by
+      ext u; simp only [Set.mem_setOf_eq, Set.mem_Ico, not_lt]
+      constructor
+      · rintro ⟨_, b, c⟩; exact ⟨c, b⟩
+      · rintro ⟨c, b⟩; exact ⟨by linarith, b, c⟩
+    rw [this, Real.volume_Ico]
 
 /-! ## list generator -/
 open PyrexD.ListGen in
